@@ -36,7 +36,7 @@ def gen_cases(run, n, prefix="c"):
             # delivered through the derive macro: the option this property depends on is on, next to a bare flag
             opts["skip_none"] = True
             opts["other_variant"] = other = True
-        c = C.make_case("%s%d" % (prefix, i), schema, doc, rng, options=opts, features=feats)
+        c = C.make_case("%s%d" % (prefix, i), schema, doc, rng, options=opts, features=feats, fmt="sdl-extended" if i % 8 == 5 else None)
         if i % 5 == 4:
             c["attr_focus"] = "fragments_other_variant"
             c["attr_mode"] = i // 5
